@@ -48,8 +48,13 @@ def install(E):
         if isinstance(v, (VData, VCons)): return ('data', canon(v.adt))
         return ('opaque',)
 
+    def as_iter(I, it):
+        if isinstance(it, VCons) and canon(it.adt) == 'std::ops::Range':
+            return VIter(('range', I.term_of(it.fields[0]), I.term_of(it.fields[1])), ('int', 'usize'))
+        return it
     def it_map(I, args, e, c):
         it, f = args
+        it = as_iter(I, it)
         if not isinstance(it, VIter): raise Undecidable('map on %r' % (it,), e['loc'])
         ev = I.fresh(it.elem, ('elem', it.term))
         r = I.apply(f, [ev], e['loc'])
@@ -267,3 +272,21 @@ def install(E):
         cls = ty_class(e['ty'], I.symparams)
         return I.fresh(cls, ('default', e['loc']), e['ty'])
     S['trait:std::default::Default::default'] = default
+
+    def it_fold(I, args, e, c):
+        it, init, f = args
+        it = as_iter(I, it)
+        if not isinstance(it, VIter) or not isinstance(init, VBdd): raise Undecidable('fold on %r' % (it,), e['loc'])
+        acc = VBdd(('p', 'FOLD_ACC'))
+        el = I.fresh(it.elem, ('elem', it.term))
+        r = I.apply(f, [acc, el], e['loc'])
+        I.events.append(('fold', init.term, it.term, I.term_of(r), e['loc']))
+        AND = 'rsbdd::bdd::BDDEnv::and'
+        if isinstance(r, VBdd) and r.term in (('app', AND, acc.term, el.term), ('app', AND, el.term, acc.term)):
+            return VBdd(('app', 'FOLD_AND', init.term, it.term))
+        raise Undecidable('fold with a combining function other than conjunction', e['loc'])
+    S['trait:std::iter::Iterator::fold'] = it_fold
+    S['std::iter::Iterator::fold'] = it_fold
+    def categorize(I, args, e, c):
+        return VBool(atom(('categorize', I.term_of(args[0]), I.term_of(args[1]))))
+    S['rsbdd::set::BDDCategorizable::categorize'] = categorize
